@@ -229,11 +229,19 @@ func c05ConfigRoute(c *Ctx, t *SrcTree) {
 		{Src: src("bin/tool"), Dst: "/usr/bin/tool"},
 		{Src: src("bin/tool"), Dst: "/usr/bin/tool-arch", Packager: "archlinux"},
 		{Src: "/usr/bin/tool", Dst: "/usr/bin/tool-link", Type: "symlink"},
+		// written in the document with `expand: true` and a variable for /opt/app: a destination that ends in a slash
+		// (the source goes INTO that directory) and one that names the file
+		{Src: src("bin/tool"), Dst: "/opt/app/bin/"},
+		{Src: src("etc/app.conf"), Dst: "/opt/app/share/app.conf", Type: "config"},
 	}
 	var doc strings.Builder
 	doc.WriteString("name: verifpkg\narch: amd64\nplatform: linux\nversion: 1.2.3\nmaintainer: Verif <verif@example.com>\ndescription: planning through Config.Get\nmtime: 2023-11-14T22:13:20Z\numask: 0o022\ncontents:\n")
 	for _, e := range raw {
-		doc.WriteString("- dst: " + e.Dst + "\n")
+		if rest, ok := strings.CutPrefix(e.Dst, "/opt/app/"); ok {
+			doc.WriteString("- dst: ${C05_PREFIX}/" + rest + "\n  expand: true\n")
+		} else {
+			doc.WriteString("- dst: " + e.Dst + "\n")
+		}
 		if e.Src != "" {
 			doc.WriteString("  src: " + e.Src + "\n")
 		}
@@ -263,7 +271,12 @@ func c05ConfigRoute(c *Ctx, t *SrcTree) {
 			y += blocks
 		}
 		for oi, order := range orders {
-			cfg, err := nfpm.Parse(strings.NewReader(y))
+			cfg, err := nfpm.ParseWithEnvMapping(strings.NewReader(y), func(k string) string {
+				if k == "C05_PREFIX" {
+					return "/opt/app"
+				}
+				return ""
+			})
 			if err != nil {
 				c.Rep.Note("plans-from-one-configuration: document does not parse: %v", err)
 				return
